@@ -206,7 +206,18 @@ def _literal_encoding(ctx, rep, rid, ci, fn, body):
     rets = [r for r in walk_no_nested(hf) if isinstance(r, ast.Return)]
     if len(rets) != 1 or not hp:
         raise AnalysisError(f"{hloc}: encoder with {len(rets)} return statements")
-    rparts = _flat_concat(_straightline(hf, rets[0].value), [])
+    rv = _straightline(hf, rets[0].value)
+    if isinstance(rv, ast.Call) and unparse(rv.func) in ("json.dumps", "dumps") and rv.args and unparse(rv.args[0]) == hp[0]:
+        # a JSON string literal: double-quoted, `"` and `\\` escaped, no \xNN - but not a C++ literal for every text
+        ascii_only = not any(k.arg == "ensure_ascii" and isinstance(k.value, ast.Constant) and k.value.value is False for k in rv.keywords)
+        rep.add(rid, "docstring literal: every escape sequence written is read back by C++ as the same character", False,
+                ("json.dumps writes every character above U+FFFF as a UTF-16 surrogate pair (`\\ud835\\udc45`); a universal character name that "
+                 "designates a surrogate is ill-formed in C++, the translation unit does not compile" if ascii_only else
+                 "json.dumps(ensure_ascii=False) leaves U+2028 / U+2029 and every non-ASCII character raw and escapes `/`-free text only by JSON's "
+                 "rules; C++ reads `\\/`-less text the same way but the literal is no longer independent of the source encoding") +
+                " (documentation with a mathematical letter or an emoji)", hloc)
+        return
+    rparts = _flat_concat(rv, [])
     quoted = len(rparts) == 3 and all(isinstance(rparts[i], ast.Constant) and rparts[i].value == '"' for i in (0, 2))
     mid = rparts[1] if len(rparts) == 3 else None
     esc_q = isinstance(mid, ast.Call) and isinstance(mid.func, ast.Attribute) and mid.func.attr == "replace" and \
@@ -1374,3 +1385,12 @@ def rule_empty_docstring_exactly_when_nothing_to_document(ctx, rep: Report, rid=
                 rep.add(rid, f"filter_member_defs:`{el.id}` handed back to the caller is filled in the loop", filled,
                         f"`{el.id}` is created empty and returned empty: what the caller was to learn (e.g. which optional parameters to leave out of "
                         f"the text) is lost", f"{ci.mod.rel}:{ff.lineno}")
+
+
+def rule_docstring_literal_wellformed(ctx, rep: Report, rid="W11"):
+    """The docstring is the one place where arbitrary input text becomes a C++ token: the literal has to be well-formed
+    for every text (same obligations as C17 Q1's encoding part, under this property's id)."""
+    prog = ctx.prog
+    ci = prog.cls("PybindWrapper")
+    holder, tpl, e, empty_ok, body, pmap, hcall = docstring_source(ctx)
+    _literal_encoding(ctx, rep, rid, ci, holder, body)
